@@ -1,13 +1,14 @@
 --------------------------- MODULE MC_C20_errctx ---------------------------
-\* C20 configuration "errctx": every pattern over {x, LF, CR} up to MaxLen (one state = one
+\* C20 configuration "errctx": every pattern over {x, LF, CR} \cup Extra up to MaxLen (one state = one
 \* pattern, built by appending one code point) x every offset 0..Len(p).  Emit prints, per
 \* pattern, the specification's (line, col, context) for every offset; the harness replays
 \* each into soupsieve.util.get_pattern_context / SelectorSyntaxError.
 EXTENDS ErrCtx, TLC, Json
-CONSTANTS MaxLen
+CONSTANTS MaxLen, Extra
 VARIABLE p
 
-Alphabet == {120, LF, CR}
+\* Extra: further code points that are NOT line breaks for the error context (form feed, VT, NEL, LS / PS: str.splitlines() would split there)
+Alphabet == {120, LF, CR} \cup Extra
 
 Init == p = <<>>
 Next == /\ Len(p) < MaxLen
